@@ -54,6 +54,7 @@ CHECKS = {
         "Run-time postcondition (complete, well-formed binary tree / valid linear path) on every finder entry point, exhaustively over small network scopes including the "
         "1- and 2-tensor, scalar, disconnected and hyper cases, plus seeded samples of each registered search space. Proved for all inputs: linear_to_ssa/ssa_to_linear, and the node bookkeeping of the lightweight processor behind "
         "greedy/optimal/random-greedy (pop_node, add_node, contract_nodes: exactly two live nodes leave, one fresh node arrives, exactly that step is recorded; "
+        "optimize_greedy, simplify_scalars only ever join two different live nodes; remove_ix/simplify_batch never change which nodes are live; copy describes the same state; "
         "optimize_remaining_by_size ends with exactly one live node from any state). "
         "Exploration level: the finders wrap third-party partitioners and heuristics for which no contract within reach is decidable.",
         "kahypar/cmaes/nevergrad untrusted but unverified; only their outputs are checked.",
@@ -61,7 +62,8 @@ CHECKS = {
     "C06": _c(
         "other",
         "Proved for any number and sizes of sliced indices: strides are suffix products; slice_key is the mixed-radix decoding (digits in range, projected index fixed, "
-        "decode(encode(i)) == i, hence slice numbers <-> value combinations one-to-one). Bounded-symbolic: slicing, gathering, stacking and lazy output chunks reproduce the "
+        "decode(encode(i)) == i, hence slice numbers <-> value combinations one-to-one); slice_arrays takes from every sliced input exactly the section the key says, axis by axis, "
+        "and hands the others through. Bounded-symbolic: slicing, gathering, stacking and lazy output chunks reproduce the "
         "unsliced polynomial value over small scopes x all trees x ordered subsets of <= 3 sliced/projected indices.",
         "Reassembly (numpy stack/sum) only bounded.",
     ),
@@ -69,7 +71,8 @@ CHECKS = {
         "other",
         "Proved for all inputs: ContractionCosts.__init__ establishes and ContractionCosts.remove preserves the cost-model invariant (per-contraction flops/size are the "
         "products over the reduced index sets, tracked flops = their sum, tracked sizes = their multiset, where-map exact); SliceFinder.best/search return a cached slicing that "
-        "satisfies every target in force; MaxCounter invariant; copy completeness. "
+        "satisfies every target in force; SliceFinder.trial keeps the cache invariants (the entry cached under a set of indices is the base minus exactly those indices; no cached "
+        "set contains a forbidden index); MaxCounter invariant; copy completeness. "
         "Bounded: whenever SliceFinder.search returns, predicted size/flops/nslices equal those of the tree "
         "actually sliced, targets honoured, forbidden indices never chosen; ContractionCosts.remove == ContractionTree.remove_ind figures for every index and ordered pair.",
         "Searches that raise are outside the property and counted separately.",
@@ -169,5 +172,6 @@ NOTES = (
     "Every check: bin/check <id> --tier quick|thorough; exit 0 held, 1 VIOLATION (replay file), 2 undecided only, 3 checker crash. "
     "T1 = proved obligations (reported under coverage.obligations/discharged with backend and solver time); bounded tiers are labelled bounded. "
     "known_findings.json lists the 37 genuine defects of the pinned tree, all repaired by 'fix:' commits in /repo (nothing is suppressed). "
-    "seeded/<id>/ holds 20 independently written property-breaking patches; bin/eval_seeded <id> applies one to /repo, runs the check and undoes it (all 20 are caught)."
+    "seeded/<id>/ and seeded/<id>-2/ hold two rounds of independently written property-breaking patches (20 + 20); bin/eval_seeded <id> applies one to /repo, runs the check and undoes it "
+    "(all are caught; DESIGN 5.3 / 5.3b say which needed a strengthening first)."
 )
